@@ -206,6 +206,8 @@ def close(a, b, rel=1e-10, abs_=0.0):
 #     ["pluscomp", key, amount]       obj = obj + <one component object>  (Element for a Substance, Substance for a
 #                                     Material) carrying the proportion `amount`
 #     ["mul", k]                      obj = obj * k  (Substance)  /  k * obj  (Material)
+#     ["rplus", [[key, amount], ...]] obj = other + obj                   (the live object is the right operand)
+#     (an empty pairs list = an empty composite as the other operand; k = 1 = the identity factor)
 #     ["iadd", pairs], ["imul", k]    augmented assignment  obj += other,  obj *= k  (same amounts as plus / mul;
 #                                     whether the object is updated in place or rebound is left to the library)
 # The reference state is nothing but the ordered dict {component: amount}.
@@ -215,6 +217,10 @@ def model_apply(counts, op):
         c[op[1]] = (c[op[1]] + op[2]) if op[1] in c else op[2]
     elif op[0] in ("plus", "iadd"):
         for k, v in op[1]:
+            c[k] = (c[k] + v) if k in c else v
+    elif op[0] == "rplus":                   # obj = other + obj : the live object is the RIGHT operand
+        c = {}
+        for k, v in list(op[1]) + list(counts.items()):
             c[k] = (c[k] + v) if k in c else v
     elif op[0] in ("mul", "imul"):
         c = {k: v * op[1] for k, v in c.items()}
@@ -235,8 +241,14 @@ def op_class(counts, op):
         return "add-existing" if op[1] in counts else "add-new"
     if op[0] == "pluscomp":
         return "pluscomp-existing" if op[1] in counts else "pluscomp-new"
+    if op[0] in ("plus", "rplus", "iadd") and not op[1]:
+        return op[0] + "-empty"              # the other operand is an empty composite (identity of '+')
+    if op[0] in ("mul", "imul") and op[1] == 1:
+        return op[0] + "-identity"
     if op[0] in ("iadd", "imul"):
         return op[0]
+    if op[0] == "rplus":
+        return "rplus-shared" if any(k in counts for k, _ in op[1]) else "rplus-disjoint"
     if op[0] == "plus":
         keys = [k for k, _ in op[1]]
         if not any(k in counts for k in keys):
@@ -274,6 +286,14 @@ def real_run(obj, history, make_other, material, make_component=None, counts=Non
                 alive.append(("right-operand", other, dict((k, v) for k, v in op[1])))
         elif op[0] == "imul":
             obj *= op[1]
+        elif op[0] == "rplus":
+            right = obj
+            other = make_other(op[1])
+            obj = other + right
+            if alive is not None:
+                alive.append(("left-operand", other, dict((k, v) for k, v in op[1])))
+                if counts is not None:
+                    alive.append(("right-operand", right, dict(counts)))
         else:
             left = obj
             if op[0] == "plus":
